@@ -166,7 +166,23 @@ def directed_pair(draw):
     return {'strata': {'sizes': sizes, 'k': k, 'ky': ky, 'order': order}}
 
 
+@st.composite
+def many_strata_pair(draw):
+    """Many small strata (2..200 target values) and a ratio chosen so that floor(r*n) is an exact multiple of their number."""
+    k = draw(st.integers(2, 200))
+    size = draw(st.integers(2, 4))
+    m = draw(st.integers(1, size))
+    return {'manystrata': {'k': k, 'size': size, 'm': m, 'seed': draw(st.integers(0, 2**32 - 1)), 'ky': draw(st.integers(2, 6))}}
+
+
 def materialize(case):
+    if 'manystrata' in case:
+        g = case['manystrata']
+        rng = np.random.Generator(np.random.PCG64(int(g['seed'])))
+        X = np.repeat(np.arange(int(g['k'])), int(g['size']))
+        X = X[rng.permutation(len(X))]
+        Y = rng.integers(0, int(g['ky']), size=len(X))
+        return Y.astype(np.int64), X.astype(np.int64)
     if 'strata' in case:
         s = case['strata']
         rng = np.random.Generator(np.random.PCG64(int(s['k'])))
@@ -180,14 +196,23 @@ def materialize(case):
 
 @st.composite
 def c04_case(draw):
-    case = dict(draw(st.one_of(directed_pair(), directed_pair(), gens.small_pair(),
+    case = dict(draw(st.one_of(directed_pair(), directed_pair(), many_strata_pair(), gens.small_pair(),
                                gens.family_pair(sizes=((2, 8), (9, 64), (65, 2000), (2001, 5000)), max_product=10**7))))
     # most ratios are drawn so that the quota is at least 1 (quota 0 means "all rows" and has no unwritten tail)
     _, X0 = materialize(case)
     n0, k0 = len(X0), len(set(X0.tolist()))
     lo = (k0 + 0.5) / n0 if n0 else 1.0
     mode = draw(st.integers(0, 5))
-    if mode == 5 and n0 >= 2:
+    if 'manystrata' in case:
+        # smallest float32 ratio with floor(r*n) == m*k exactly
+        from fractions import Fraction
+        g = case['manystrata']
+        target = int(g['m']) * int(g['k'])
+        r = np.float32(target / n0)
+        while int(Fraction(float(r)) * n0) < target:
+            r = np.nextafter(r, np.float32(1.0), dtype=np.float32)
+        case['r'] = float(r) if float(r) < 1.0 else float(np.float32(0.5))
+    elif mode == 5 and n0 >= 2:
         # short decimals / small fractions: float32(r) lies just below or above a/b, so r*n sits next to an integer when b | n
         b = draw(st.sampled_from([2, 4, 5, 8, 10, 20]))
         a = draw(st.integers(1, b - 1))
@@ -223,8 +248,10 @@ def oracle(case, rec):
     cx = Counter(Xl)
     small_stratum = q > 0 and any(v < q for v in cx.values())
     tail = q > 0 and (small_stratum or q * len(values) < final)
-    rec.nt(tail, key=[Yl, Xl, r, c] if n <= 64 else [{k: v for k, v in case.items() if k in ('gen', 'strata')}, r, c])
+    rec.nt(tail or 'manystrata' in case, key=[Yl, Xl, r, c] if n <= 64 else [{k: v for k, v in case.items() if k in ('gen', 'strata', 'manystrata')}, r, c])
     rec.cls('quota=0' if q == 0 else 'quota>0')
+    if 'manystrata' in case:
+        rec.cls('floor(rn)-exact-multiple-of-many-strata')
     if small_stratum:
         rec.cls('stratum<quota')
     if q > 0 and final % len(values) != 0:
